@@ -35,6 +35,8 @@ def run(ctx):
     ctx.cov["behaviours_replayed"] += s.get("traces", 0)
     # R: generated programs, fresh vs. history contexts
     ctx.drive(drv, ["-mode", "history", "-n", ctx.pick(150, 2000), "-par", 4], name="c28-history", timeout=7200)
+    # R: generated transactions gated before every opcode, released in a seeded order
+    ctx.drive(drv, ["-mode", "interleave", "-n", ctx.pick(25, 400), "-par", 3], name="c28-interleave", timeout=7200)
     if th:
         rdrv = ctx.build("c28", race=True)
         ctx.drive(rdrv, ["-mode", "history", "-n", 300, "-par", 6], name="c28-history-race", timeout=10800,
